@@ -21,8 +21,9 @@ type witness struct {
 	files   map[string]string // YANG
 	roots   []string
 	flags   pipeline.Flags
-	stage   string         // where it fails: "build" | "vet" | "generate" | "conformance"
-	sig     *regexp.Regexp // failure signature in the compiler / generator output
+	stage   string                    // where it fails: "build" | "vet" | "generate" | "conformance"
+	sig     *regexp.Regexp            // failure signature in the compiler / generator output
+	when    func(pipeline.Flags) bool // flag condition of the trigger (nil: any flag set)
 }
 
 const hdr = "yang-version 1.1; namespace \"urn:%s\"; prefix %s;"
@@ -60,10 +61,18 @@ var witnesses = []witness{
 		stage: "build", sig: regexp.MustCompile(`field and method with the same name|redeclared|already declared`),
 	},
 	{
-		id: "F25d-key-Key-swap", classes: []string{yanggen.ClKeyKey},
+		id: "F25d-key-Key-swap", classes: []string{yanggen.ClKeyKey, yanggen.ClKeyOrder},
 		files: map[string]string{"wa.yang": mod("wa", "  container c { list l { key \"key Key\"; leaf key { type string; } leaf Key { type uint8; } } }\n")},
 		roots: []string{"wa.yang"}, flags: pipeline.Flags{FakeRoot: true},
 		stage: "build", sig: regexp.MustCompile(`cannot use|mismatched types|redeclared`),
+	},
+	{
+		id: "F34-key-param-shadows-list-struct", classes: []string{yanggen.ClKeyStructName},
+		files: map[string]string{"wa.yang": mod("wa", "  container mtus { list mtu { key \"mtu\"; leaf mtu { type leafref { path \"../config/mtu\"; } }\n"+
+			"    container config { leaf mtu { type string; } } container state { config false; leaf mtu { type string; } } } }\n")},
+		roots: []string{"wa.yang"}, flags: pipeline.Flags{Compress: true, FakeRoot: true},
+		stage: "build", sig: regexp.MustCompile(`is not a type`),
+		when: func(f pipeline.Flags) bool { return f.Compress && f.FakeRoot },
 	},
 	{
 		id:    "F29-split-files-unused-imports",
@@ -79,6 +88,11 @@ var probes = []witness{
 		roots: []string{"wa.yang"}, flags: pipeline.Flags{FakeRoot: true, Getters: true, Append: true, Delete: true, Rename: true, LeafGetters: true, LeafSetters: true}},
 	{classes: []string{yanggen.ClCamelSiblings, yanggen.ClDashUnderscore}, files: map[string]string{"wa.yang": mod("wa", "  container c { leaf leaf-one { type string; } leaf leaf-One { type uint8; } leaf leafOne { type int8; } container a-b { leaf x { type string; } } container a_b { leaf y { type string; } } list a.b { key k; leaf k { type string; } } }\n")},
 		roots: []string{"wa.yang"}, flags: pipeline.Flags{FakeRoot: true, Getters: true, Append: true, Delete: true, Rename: true, LeafGetters: true, LeafSetters: true, PopulateDefaults: true}},
+	// F25d, second form: a key and a non-key sibling (policy / Policy); third: benign orders (must compile)
+	{classes: []string{yanggen.ClKeyOrder}, files: map[string]string{"wa.yang": mod("wa", "  container c { list l { key \"policy\"; leaf policy { type string; } leaf Policy { type uint8; } } }\n")},
+		roots: []string{"wa.yang"}, flags: pipeline.Flags{FakeRoot: true}},
+	{classes: []string{yanggen.ClKeyCamel}, files: map[string]string{"wa.yang": mod("wa", "  container c { list l { key \"Key key\"; leaf key { type string; } leaf Key { type uint8; } } list m { key \"Policy\"; leaf policy { type string; } leaf Policy { type uint8; } } list n { key \"vlan-id vlanId\"; leaf vlanId { type string; } leaf vlan-id { type uint8; } } }\n")},
+		roots: []string{"wa.yang"}, flags: pipeline.Flags{FakeRoot: true, Getters: true, Append: true, Delete: true, Rename: true}},
 	{classes: []string{yanggen.ClKeyListName, yanggen.ClKeyCamel, yanggen.ClListChildKey}, files: map[string]string{"wa.yang": mod("wa", "  container c { list l { key \"l\"; leaf l { type string; } } list m { key \"a-b a_b\"; leaf a-b { type string; } leaf a_b { type uint8; } } list n { key \"x y\"; leaf x { type string; } leaf y { type string; } container key { leaf z { type string; } } } }\n")},
 		roots: []string{"wa.yang"}, flags: pipeline.Flags{FakeRoot: true, Getters: true, Append: true, Delete: true, Rename: true}},
 	{classes: []string{yanggen.ClGoKeyword}, files: map[string]string{"wa.yang": mod("wa", "  container type { leaf func { type string; } leaf range { type uint8; } container map { leaf string { type string; } leaf nil { type string; } } list interface { key go; leaf go { type string; } leaf len { type enumeration { enum true; enum false; enum nil; } } } }\n")},
@@ -112,24 +126,28 @@ func witnessFails(w witness, c *pipeline.GoCheck) (bool, string) {
 	if c.HarnessError != "" {
 		return false, "harness error (witness not evaluated): " + c.HarnessError
 	}
-	out := ""
+	stage, out := "", ""
 	switch {
-	case c.UnusedImports != "":
-		out = "build-unused-imports: " + c.UnusedImports
 	case c.GenFailed():
-		out = "generate: " + c.Gen.Output
+		stage, out = "generate", c.Gen.Output
+	case c.UnusedImports != "" && (w.stage == "build-unused-imports" || !c.BuildFailed):
+		stage, out = "build-unused-imports", c.UnusedImports
 	case c.BuildFailed:
-		out = "build: " + c.BuildOutput
+		stage, out = "build", c.BuildOutput
 	case c.VetFailed:
-		out = "vet: " + c.VetOutput
+		stage, out = "vet", c.VetOutput
 	case c.RunFailed:
-		out = "run: " + c.RunOutput
+		stage, out = "run", c.RunOutput
 	case c.Verdict != nil && len(c.Verdict.C26.Violations) > 0:
-		out = "conformance: " + strings.Join(c.Verdict.C26.Violations, "\n")
+		stage, out = "conformance", strings.Join(c.Verdict.C26.Violations, "\n")
 	default:
 		return false, "generated code compiles, vets and conforms"
 	}
-	return true, pipeline.Trunc(out, 1500)
+	// a recorded finding is only "still there" when it fails the recorded way (stage + signature)
+	if w.id != "" && (stage != w.stage || w.sig != nil && !w.sig.MatchString(out)) {
+		return false, "fails, but not as recorded (want stage " + w.stage + "): " + stage + ": " + pipeline.Trunc(out, 1500)
+	}
+	return true, stage + ": " + pipeline.Trunc(out, 1500)
 }
 
 // TestDevWitnesses (development aid, CODEGEN_DEV=1): every witness and every probe, with output.
